@@ -94,7 +94,7 @@ def main(chk):
     b = S.vadd(a, ab); c = S.vadd(a, ac); p = S.vadd(a, ap)
     tasks = []
     meta = []
-    tmo = 20000 if quick else 300000
+    tmo = 20000 if quick else 120000
     regions_seen = set()
     for (trace, pc, r) in results:
         if r.status != 'ok':
@@ -125,7 +125,7 @@ def main(chk):
         claims.append(('O4.translation_outputs', same, True))
         claims.append(('O4.translation_path', S.subst(S.conj(pc), mp), True))
         for nm, cl, core in claims:
-            tasks.append(('general/' + key + '/' + nm, pc, cl, tmo if core else min(tmo, 15000 if quick else 300000)))
+            tasks.append(('general/' + key + '/' + nm, pc, cl, tmo if core else min(tmo, 15000 if quick else 90000)))
             meta.append((sig, key, nm, core, r, 'general'))
         # vacuity witness: the path condition must be satisfiable (claim false must be refutable)
         tasks.append(('general/' + key + '/witness', pc, S.FALSE, tmo))
@@ -154,7 +154,7 @@ def main(chk):
         pq = S.vsub(p, q)
         key = sig + '/' + ''.join('T' if d.taken else 'F' for d in trace)
         for nm, x in (('a', a), ('b', bC), ('c', cC)):
-            tasks.append(('canonical/' + key + '/O3.kkt_' + nm, pc, S.cmp('le', S.vdot(pq, S.vsub(x, q)), S.ZERO), 60000 if quick else 600000))
+            tasks.append(('canonical/' + key + '/O3.kkt_' + nm, pc, S.cmp('le', S.vdot(pq, S.vsub(x, q)), S.ZERO), 60000 if quick else 180000))
             meta.append((sig, key, 'O3.kkt_' + nm, True, r, 'canonical'))
         tasks.append(('canonical/' + key + '/O2.dist', pc, S.cmp('eq', d2, S.vdot(pq, pq)), tmo))
         meta.append((sig, key, 'O2.dist', True, r, 'canonical'))
